@@ -37,10 +37,44 @@ def cond_programs(draw):
 
 
 @st.composite
+def interrupt_programs(draw):
+    """A process that receives several interrupts in one activation of the interrupter while its next yields are
+    events that were processed long ago, finished processes, fresh timeouts ...: one Interrupt per yield, in call order."""
+    nev = 3
+    early = {'name': 'p0', 'phase': 1, 'steps': [{'op': 'succeed', 'ev': 0, 'v': draw(st.sampled_from([None, 0, 'x']))},
+                                                 {'op': 'succeed', 'ev': 1, 'v': 5}]}
+    nxt = []
+    for _ in range(draw(st.integers(1, 4))):
+        k = draw(st.integers(0, 5))
+        if k <= 1:
+            nxt.append({'op': 'wait', 'ev': draw(st.integers(0, 1))})               # processed long ago
+        elif k == 2:
+            nxt.append({'op': 'cond', 'kind': draw(st.sampled_from(['any', 'all'])), 'evs': [0, 1], 'sub': []})
+        elif k == 3:
+            nxt.append({'op': 'timeout', 'd': draw(st.integers(0, 2)), 'v': 'late'})
+        elif k == 4:
+            nxt.append({'op': 'wait', 'ev': 2})                                       # never fires / fires later
+        else:
+            nxt.append({'op': 'spawn', 'child': {'name': 'c%d' % len(nxt), 'steps': [{'op': 'return', 'v': 3}]}})
+    victim = {'name': 'p1', 'phase': 2, 'steps': [{'op': 'timeout', 'd': draw(st.integers(2, 4)), 'v': 'first'}] + nxt +
+              [{'op': 'timeout', 'd': 1}]}
+    burst = [{'op': 'interrupt', 'proc': 'p1', 'cause': 'i%d' % j} for j in range(draw(st.integers(1, 3)))]
+    attacker = {'name': 'p2', 'phase': 3, 'steps': [{'op': 'timeout', 'd': draw(st.integers(0, 3))}] + burst}
+    procs = [early, victim, attacker]
+    if draw(st.integers(0, 2)) == 0:
+        procs.append({'name': 'p3', 'phase': 5, 'steps': [{'op': 'timeout', 'd': draw(st.integers(0, 5))},
+                                                           {'op': 'interrupt', 'proc': 'p1', 'cause': 'j'},
+                                                           {'op': 'succeed', 'ev': 2, 'v': 'two'}]})
+    return {'nev': nev, 'nflags': 0, 'procs': procs, 't0': 0, 'callbacks': [], 'watch': []}
+
+
+@st.composite
 def programs(draw, tier):
     big = tier == 'thorough'
     if draw(st.integers(0, 6)) == 0:
         return draw(cond_programs())
+    if draw(st.integers(0, 9)) == 0:
+        return draw(interrupt_programs())
     nev = draw(st.integers(1, 5))
     nflags = 2
     nproc = draw(st.integers(1, 5 if big else 4))
